@@ -12,7 +12,16 @@ props = [json.loads(l)['id'] for l in open(os.path.join(HERE, 'properties.jsonl'
 checks = []
 for pid in props:
     if pid in CLAIMED:
-        c = CLAIMED[pid]
+        c = dict(CLAIMED[pid])
+        # the rule list of the committed evidence (clean-tree run) is appended, so that the claim always names
+        # exactly the rules the check applies
+        ev = os.path.join(HERE, 'evidence', '%s.json' % pid)
+        if os.path.exists(ev):
+            try:
+                rules = json.load(open(ev))['coverage']['rules']
+                c['text'] = c['text'].rstrip() + ' Rules applied: ' + '; '.join('%s %s' % (rid, r['desc']) for rid, r in rules.items()) + '.'
+            except Exception:
+                pass
         checks.append({
             'property_id': pid,
             'quick_cmd': './check %s --tier quick' % pid,
